@@ -238,6 +238,8 @@ def _exec_sweep(spec):
 
     from ..simrng import Scheduler
 
+    parsed = {}
+
     def run_with(us):
         """generate with block quantiles us (list per block)"""
         # a scheduler whose quantile stream is `us` in draw order; choices take the first option
@@ -258,8 +260,12 @@ def _exec_sweep(spec):
             counter["n"] += 1
             return {"block": k, "u_cap": None}
 
-        return genrun.run_molecule(text, None, props=("C07",), embed="stub", cap_mass=None, wall=90, ast=ast, sched_obj=QSched(),
-                                   draw_ctx_fn=ctx_fn)
+        # every generation of the sweep uses the same parsed object ("over repeated generation")
+        o = genrun.run_molecule(text, None, props=("C07",), embed="stub", cap_mass=None, wall=90, ast=ast, sched_obj=QSched(),
+                                draw_ctx_fn=ctx_fn, reuse_obj=parsed.get("obj"))
+        if o.mol_obj is not None:
+            parsed["obj"] = o.mol_obj
+        return o
 
     unit_elem = ast.elements[stoch_idx[b]]
     rd = refdist.from_params(unit_elem.dist.family, unit_elem.dist.params)
